@@ -211,10 +211,13 @@ func updateDatabags(st *state.State, databag registry.JSONDataBag, reg *registry
 	err := st.Get("registry-databags", &databags)
 	if err != nil && !errors.Is(err, state.ErrNoState) {
 		return err
-	} else if errors.Is(err, &state.NoStateError{}) || databags[account] == nil || databags[account][registryName] == nil {
-		databags = map[string]map[string]registry.JSONDataBag{
-			account: {registryName: registry.NewJSONDataBag()},
-		}
+	}
+	// only add to what is there, other registries keep their databags
+	if databags == nil {
+		databags = map[string]map[string]registry.JSONDataBag{}
+	}
+	if databags[account] == nil {
+		databags[account] = map[string]registry.JSONDataBag{}
 	}
 
 	databags[account][registryName] = databag
